@@ -1238,6 +1238,22 @@ def _summarise(ctx):
     ctx.cov["timeouts"] = sum(v for k, v in h.items() if k.startswith("fail:") and ":no_return" in k)
 
 
+def gen_assign_wide(rng):
+    """size-threshold family: >= 11 rows or columns, so the string node labels `L<i>` / `R<j>` of the bipartite
+    network have two digits (anything that reads a label by position, or sorts labels as text, shows only here)"""
+    n = rng.randint(9, 13)
+    m = rng.choice([n, rng.randint(9, 14)])
+    if max(n, m) < 11:
+        m = rng.randint(11, 14)
+    if rng.random() < 0.5:
+        mat = [[rng.randint(0, 30) for _ in range(m)] for _ in range(n)]
+    else:  # planted cheap matching through the high-numbered rows / columns, everything else expensive
+        perm = list(range(max(n, m)))
+        rng.shuffle(perm)
+        mat = [[(1 if perm[i] == j else rng.randint(15, 40)) for j in range(m)] for i in range(n)]
+    return {"fn": "solve_assignment", "matrix": mat}
+
+
 def run(ctx, budget):
     ctx.cov["rule"] = RULE
     ctx.cov["missing_theorems"] = []     # [S] ssp_certifies is proved (SSPCert / SSPConv / SSPReduce)
@@ -1264,6 +1280,9 @@ def run(ctx, budget):
             cases.append(gen_numeric(ctx.rng, b, "network_simplex"))
         if i % 16 == 7:
             cases.append(gen_numeric(ctx.rng, b, "solve_assignment"))
+        if i % 40 == 11:
+            cases.append(gen_assign_wide(ctx.rng))
+            ctx.count("assign_family:two_digit_labels")
     run_cases(ctx, cases)
     _summarise(ctx)
 
